@@ -278,6 +278,17 @@ def rewrite_loops(body, log, fname):
                 log.append('R1 %s: `%s`' % (fname, hn))
                 changed = True
                 break
+            # R7: for i in a..b { .. continue .. }  (Verus: for-loops do not support continue)
+            m = re.match(r'for (\w+) in ([\w.()\[\] ]+?)\.\.([\w.()\[\] ]+)$', hn)
+            if m and m.group(1) != '_' and re.search(r'\bcontinue\b', mask_noncode(inner)):
+                i_, a_, b_ = m.groups()
+                inner2 = add_increment_before_continue(inner, '%s += 1;' % i_)
+                new = ('let mut %s = %s;\n while %s < %s /*@LOOPHEAD*/ {\n%s\n %s += 1;\n }'
+                       % (i_, a_, i_, b_, inner2, i_))
+                body = body[:kpos] + new + body[cpos + 1:]
+                log.append('R7 %s: `%s` (contains continue)' % (fname, hn))
+                changed = True
+                break
             # R3: for _ in a..b
             m = re.match(r'for _ in (.+)$', hn)
             if m:
@@ -333,7 +344,7 @@ def add_increment_before_continue(inner, inc):
     m = mask_noncode(inner)
     out = []
     last = 0
-    for mm in re.finditer(r'\bcontinue\s*;', m):
+    for mm in re.finditer(r'\bcontinue\b\s*;?', m):
         out.append(inner[last:mm.start()])
         out.append('{ %s continue; }' % inc)
         last = mm.end()
@@ -357,6 +368,7 @@ class FnSpec:
         self.decreases = None
         self.inserts = []     # (mode, anchor, nth, text)
         self.loops = {}       # ordinal -> text
+        self.loopbodies = {}  # ordinal -> ghost text inserted at the start of the loop body (shape independent)
         self.body_props = set()
         self.rename = None
         self.attrs = ''       # verus attributes to put before fn
@@ -414,9 +426,15 @@ def emit_fn(vf, src, path, spec, label=None, indent='    ', _canary_copy=False):
     for ordn in spec.loops:
         if ordn >= len(loops):
             raise ToolLimit('%s: loop #%d not found (%d loops)' % (fname, ordn, len(loops)))
-    for ordn in sorted(spec.loops, reverse=True):
+    for ordn in spec.loopbodies:
+        if ordn >= len(loops):
+            raise ToolLimit('%s: loop #%d not found (%d loops)' % (fname, ordn, len(loops)))
+    for ordn in sorted(set(spec.loops) | set(spec.loopbodies), reverse=True):
         (kpos, bpos, cpos) = loops[ordn]
-        body = body[:bpos] + '\n' + spec.loops[ordn] + '\n' + body[bpos:]
+        if ordn in spec.loopbodies:
+            body = body[:bpos + 1] + '\n' + spec.loopbodies[ordn] + '\n' + body[bpos + 1:]
+        if ordn in spec.loops:
+            body = body[:bpos] + '\n' + spec.loops[ordn] + '\n' + body[bpos:]
     if len(loops) and set(range(len(loops))) - set(spec.loops):
         pass  # loops without invariant: Verus will complain if needed
     body = body.replace('/*@LOOPHEAD*/', '')
@@ -625,6 +643,8 @@ def process_template(vf, tpath, sources, default_props=()):
                     spec.inserts.append((kind, cur[1], cur[2], text))
                 elif kind == 'loop':
                     spec.loops[cur[1]] = text
+                elif kind == 'loopbody':
+                    spec.loopbodies[cur[1]] = text
                 elif kind == 'attr':
                     spec.attrs = text.strip()
             while True:
@@ -655,6 +675,8 @@ def process_template(vf, tpath, sources, default_props=()):
                     cur = (dd, mq.group(1), int(mq.group(3) or 0))
                 elif dd == 'loop':
                     cur = ('loop', int(aa.strip()))
+                elif dd == 'loopbody':
+                    cur = ('loopbody', int(aa.strip()))
                 elif dd == 'attr':
                     cur = ('attr',)
                     buf = [aa]
